@@ -241,6 +241,15 @@ def _w(path: str, data, mode="wb"):
         f.write(data)
 
 
+def _record_order(rng, roots):
+    """(index, name) pairs in the order the records are WRITTEN into the configuration: a mapping has no order, the slot of
+    a root certificate is the number in its key."""
+    pairs = list(enumerate(roots))
+    if rng.random() < 0.4:
+        rng.shuffle(pairs)
+    return pairs
+
+
 def _dump_yaml(path: str, cfg: dict):
     import yaml  # PyYAML, as used by spsdk itself
 
@@ -384,7 +393,7 @@ def cert_v1(rng, d: str, tier: str, want: dict) -> tuple[dict, dict, str]:
         mixed = False
         chain = pki.chain(roots[used], depth)
     y: dict = {"imageBuildNumber": want.get("build", rng.choice([0, 1, 0x1234, 0xFFFFFFFF]))}
-    for i, name in enumerate(roots):
+    for i, name in _record_order(rng, roots):
         if i == used:
             # a single certificate must not be a CA; a chain starts with the CA certificate of the root
             y[f"rootCertificate{i}File"] = pki.path(name, "nonca", "der") if depth == 1 else chain["certs"][0]
@@ -407,7 +416,7 @@ def cert_v21(rng, d: str, family: str, want: dict) -> tuple[dict, dict, str]:
     roots = order[:nroots]
     use_isk = want.get("isk", rng.random() < 0.6)
     y: dict = {"family": family, "useIsk": bool(use_isk)}
-    for i, name in enumerate(roots):
+    for i, name in _record_order(rng, roots):
         what, fmt = rng.choice([("pub", "pem"), ("pub", "der"), ("cert", "pem"), ("cert", "der"), ("nonca", "pem")])
         y[f"rootCertificate{i}File"] = pki.path(name, what, fmt)
     y["mainRootCertId"] = used
